@@ -168,7 +168,10 @@ def one_instance(ctx, m, tag, mult, in_dtype, all_perms, layout=None):
         arr = np.ascontiguousarray(arr[::-1, ::-1])[::-1, ::-1]
     ctx.count(f"input_layout[{layout}]")
     ctx.case()
-    inst = Instance("v" + format(int(rng.integers(1 << 30)), "x"), 0, arr,
+    # every other instance shares its name with others of the same size
+    iname = f"rnd{n}" if rng.integers(2) else (
+        "v" + format(int(rng.integers(1 << 30)), "x"))
+    inst = Instance(iname, 0, arr,
                     mult)
     ctx.count("instances")
     ctx.count(f"dtype[{inst.dtype}]")
